@@ -260,7 +260,7 @@ def limited_lengths(v):
 
 def finalize_nested(n: int, outer_len: int, inner_len: int) -> bool:
     """
-    pre: -1 <= n <= 4 and 0 <= outer_len <= 4 and 0 <= inner_len <= 4
+    pre: -1 <= n <= H.P('nmax', 3) and 0 <= outer_len <= H.P('maxlen', 3) and 0 <= inner_len <= H.P('maxlen', 3)
     pre: H.fresh(n, outer_len, inner_len)
     post: _
     """
@@ -536,7 +536,7 @@ class LoggedTuple(tuple):
 
 def repetition(q: int, right: int, length: int, swap: bool) -> bool:
     """
-    pre: -1 <= q <= 400 and 0 <= length <= 3
+    pre: H.P('qlo', -1) <= q <= 400 and H.P('lenlo', 0) <= length <= H.P('maxlen', 3)
     pre: H.P('rlo', -3) <= right <= H.P('rhi', 40)
     pre: H.fresh(q, right, length, swap)
     post: _
@@ -546,7 +546,6 @@ def repetition(q: int, right: int, length: int, swap: bool) -> bool:
         L = int(H.deep_realize(length))
         if what == 'str':
             left = 'x' * L
-            unit, empty = sys.getsizeof('x' * (L + 1)) - sys.getsizeof('x' * L) if L else 1, sys.getsizeof('')
             true_size = lambda r: sys.getsizeof('') + (max(r, 0) * L)          # ASCII: 1 byte per character
         else:
             left = LoggedTuple(range(L))
@@ -570,8 +569,8 @@ def repetition(q: int, right: int, length: int, swap: bool) -> bool:
             r = H.deep_realize(res)
             n_r = int(H.deep_realize(right))
             ok_val = (r == left * n_r) if what == 'str' else (tuple(r) == tuple(left) * n_r)
-            ok_size = q <= 0 or sys.getsizeof(r) <= int(H.deep_realize(q)) or what != 'str'
-        ok = ok and ok_val and ok_size
+            rsize = sys.getsizeof(r)
+        ok = ok and ok_val and (q <= 0 or rsize <= q)      # what is returned fits the quota
     return H.done(ok)
 
 
@@ -742,9 +741,10 @@ def conditions(tier, seed):
                 continue        # unhashable inputs cannot be built
             if q and (SHAPES.index(outer) + SHAPES.index(inner) + seed) % 3 != 0:
                 continue
+            mx = 2 if q else 4
             add('finalize_nested[%s,%s]' % (outer, inner), 'finalize_nested',
-                'N in [-1,4], outer/inner lengths in [0,4]; %s of %s through $v and #finalize' % (outer, inner), t,
-                outer=outer, inner=inner)
+                'N in [-1,%d], outer/inner lengths in [0,%d]; %s of %s through $v and #finalize' % (mx, mx, outer, inner),
+                t if q else 900, outer=outer, inner=inner, nmax=mx, maxlen=mx)
     # registry sweep
     cases = all_cases()
     labels = [c['label'] for c in cases]
@@ -771,10 +771,14 @@ def conditions(tier, seed):
     # quota
     add('quota_unit', 'quota_unit', 'Q in [-1,400], counts in [-3,40], stubbed sizes in [0,200], quota as int or engine', t)
     for what in ('str', 'tuple'):
-        add('repetition[%s,small]' % what, 'repetition', 'Q in [-1,400], count in [-3,40], operand length in [0,3], both orders',
-            150 if q else 600, what=what, rlo=-3, rhi=40)
-        add('repetition[%s,huge]' % what, 'repetition', 'Q in [-1,400], count in [9990,10000], operand length in [0,3]',
-            150 if q else 600, what=what, rlo=9990, rhi=10000)
+        lo, hi, ml = (-1, 6, 2) if q else (-3, 40, 3)
+        for ln in range(ml + 1):
+            add('repetition[%s,small,len%d]' % (what, ln), 'repetition',
+                'Q in [-1,400], count in [%d,%d], operand length %d, both orders' % (lo, hi, ln),
+                150 if q else 900, what=what, rlo=lo, rhi=hi, lenlo=ln, maxlen=ln)
+        lo = 9999 if q else 9990
+        add('repetition[%s,huge]' % what, 'repetition', 'Q in [1,400], count in [%d,10000], operand length in [0,%d]' % (lo, ml),
+            150 if q else 900, what=what, rlo=lo, rhi=10000, maxlen=ml, qlo=1)
     for which in QUOTA_EXPRS:
         add('quota_flow[%s]' % which, 'quota_flow', 'Q in [-1,400], stubbed size of the value in [0,500]; ' + QUOTA_EXPRS[which],
             t, expr=which)
